@@ -466,11 +466,13 @@ func (s *Script) ScriptType() string {
 	if s.IsP2PK() {
 		return ScriptTypePubKey
 	}
-	if s.IsMultiSigOut() {
-		return ScriptTypeMultiSig
-	}
+	// A data carrier script may end in bytes that look like the tail of a
+	// multisig script, so the data prefix is tested first.
 	if s.IsData() {
 		return ScriptTypeNullData
+	}
+	if s.IsMultiSigOut() {
+		return ScriptTypeMultiSig
 	}
 	if s.IsP2PKHInscription() {
 		return ScriptTypePubKeyHashInscription
